@@ -1,3 +1,4 @@
+#define HV_EIGEN_ASSERT_THROWS
 // C05 numeric harness: d2r_exp / d2r_expinv / d2l_* of the real library vs Richardson-differentiated independent
 // long-double Jacobian oracle (documented layout), and the generic helpers d_matrix_product / d2_fog against
 // polynomial matrix functions with exact derivatives.
@@ -116,6 +117,11 @@ void run_fog(Rng & rng, int n)
   for (int c = 0; c < n; ++c) {
     ++REP->evaluations;
     ++REP->strata[Sparse ? "d2_fog_sparse" : "d2_fog_dense"];
+    {
+      std::ostringstream cur;
+      cur << "{\"check\":\"d2_fog\",\"sparse\":" << Sparse << ",\"NO\":" << NO << ",\"NY\":" << NY << ",\"NX\":" << NX << ",\"case\":" << c << "}";
+      REP->current = cur.str();
+    }
     // f_i(y) = fl_i . y + 1/2 y' Fq_i y ; g_j(x) = gl_j . x + 1/2 x' Gq_j x
     Eigen::Matrix<double, NO, NY> fl = Eigen::Matrix<double, NO, NY>::Random();
     std::array<Eigen::Matrix<double, NY, NY>, NO> Fq;
@@ -149,12 +155,22 @@ void run_fog(Rng & rng, int n)
       want.template middleCols<NX>(i * NX) = H;
     }
     Eigen::Matrix<double, NX, NO * NX> got;
-    if constexpr (Sparse) {
-      Eigen::SparseMatrix<double> Jfs = Jf.sparseView();
-      got                             = smooth::d2_fog(Jfs, Hf, Jg, Hg);
-    } else {
-      got = smooth::d2_fog(Jf, Hf, Jg, Hg);
+    try {
+      if constexpr (Sparse) {
+        Eigen::SparseMatrix<double> Jfs = Jf.sparseView();
+        got                             = smooth::d2_fog(Jfs, Hf, Jg, Hg);
+      } else {
+        got = smooth::d2_fog(Jf, Hf, Jg, Hg);
+      }
+    } catch (const std::exception & ex) {
+      std::ostringstream os;
+      os << "{\"check\":\"d2_fog\",\"sparse\":" << Sparse << ",\"NO\":" << NO << ",\"NY\":" << NY << ",\"NX\":" << NX
+         << ",\"err\":\"exception\",\"what\":\"out-of-range block access inside d2_fog (Eigen assertion)\"}";
+      (void)ex;
+      REP->fail(os.str(), "d2_fog_crash", 0);
+      continue;
     }
+    REP->current.clear();
     double e = (got - want).cwiseAbs().maxCoeff();
     REP->tally(Sparse ? "d2_fog_sparse" : "d2_fog_dense", e);
     if (!(e <= 1e-12)) {
@@ -165,7 +181,9 @@ void run_fog(Rng & rng, int n)
   }
 }
 
-int main()
+static int hv_main();
+int main() { return hv::guard(hv_main); }
+static int hv_main()
 {
   Report rep;
   rep.property = "C05";
